@@ -76,7 +76,7 @@ def gen_ops(ctx):
     n = 90 if quick else 800
     pairs, kinds = [], []
     for i in range(n):
-        s = L.Gen(rng).schema(ntypes=rng.randrange(3, 7), nfuns=rng.randrange(1, 3))
+        s = L.Gen(rng).schema(ntypes=rng.randrange(2, 6), nfuns=rng.randrange(1, 3), chain=(i % 3 == 0), shared=(i % 4 == 1))
         if i % 5 != 0:   # explicit tags: appending a field must not move the (otherwise CRC32-derived) tag
             for c in s.combs:
                 c.tag = rng.randrange(1, 1 << 32)
